@@ -4,9 +4,10 @@ import OrbitModel.Model.Store
 # The cached heads of a store cover its log   (C05, C02)
 
 `StoreCovers s`: every entry of the log is reachable from `_localHeads ++ _remoteHeads`.
-Preserved by `AddOperation` (allowed or denied) and by a `replicationLoadComplete` all of whose
-joins succeed. It is *not* preserved by an aborted `replicationLoadComplete` (the joins done before
-the failing one stay in the log, the cache is not rewritten): `loadEnd_abort_uncovered`.
+Preserved by `AddOperation` (allowed or denied); established by every `replicationLoadComplete`,
+whichever logs of the batch are rejected (a rejected log is skipped, `_remoteHeads` is always
+rewritten). In the pinned tree an aborted `replicationLoadComplete` broke it (the joins done before
+the failing one stayed in the log, the cache was not rewritten): `loadEndPinned_abort_uncovered`.
 -/
 namespace Orbit
 
@@ -110,73 +111,83 @@ theorem join_id {canAppend : Entry → Bool} {L L' : Log} {A headsA : OMap} {Aid
   · rw [joinCore_eq L A headsA Aid hid]; rfl
 
 theorem joinAll_cons (acl : Acl) (L : Log) (es hs : OMap) (rest : List (OMap × OMap)) :
-    joinAllPinned acl L ((es, hs) :: rest) =
+    joinAll acl L ((es, hs) :: rest) =
       match join acl.canAppend L es hs L.id with
-      | .ok L' => joinAllPinned acl L' rest
-      | .error _ => (L, false) := rfl
+      | .ok L' => joinAll acl L' rest
+      | .error _ => joinAll acl L rest := rfl
 
-/-- every log joined by `joinAllPinned`, also one that aborts, keeps the invariants, the id, and the
-entries it had -/
-theorem joinAll_good {acl : Acl} {U : List Entry} (hU : HashDet U) (hM : ClockMono U) :
+/-- **`joinAll` keeps a good log good**, whichever logs of the batch are rejected; it also keeps the
+id and the entries the log had -/
+theorem joinAll_good' {acl : Acl} {U : List Entry} (hU : HashDet U) (hM : ClockMono U) :
     ∀ (logs : List (OMap × OMap)) (L : Log), Good U L → BatchHonest U L.id logs →
-      Good U (joinAllPinned acl L logs).1 ∧ (joinAllPinned acl L logs).1.id = L.id ∧
-      ∀ e ∈ L.entries, e ∈ (joinAllPinned acl L logs).1.entries := by
+      Good U (joinAll acl L logs) ∧ (joinAll acl L logs).id = L.id ∧
+      ∀ e ∈ L.entries, e ∈ (joinAll acl L logs).entries := by
   intro logs
   induction logs with
   | nil => intro L hG _; exact ⟨hG, rfl, fun _ h => h⟩
   | cons p rest ih =>
     intro L hG hB
     obtain ⟨es, hs⟩ := p
+    have hB' : BatchHonest U L.id rest := fun q hq => hB q (List.mem_cons_of_mem _ hq)
     rw [joinAll_cons]
     cases hj : join acl.canAppend L es hs L.id with
-    | error _ => exact ⟨hG, rfl, fun _ h => h⟩
+    | error _ => exact ih L hG hB'
     | ok L' =>
       obtain ⟨hA, hid⟩ := hB (es, hs) List.mem_cons_self
       have hG' : Good U L' := good_step hU hM hG (.join L L' es hs L.id hA hid hj)
       have hid' : L'.id = L.id := join_id hj
-      obtain ⟨h1, h2, h3⟩ := ih L' hG' (fun q hq => by
-        rw [hid']; exact hB q (List.mem_cons_of_mem _ hq))
+      obtain ⟨h1, h2, h3⟩ := ih L' hG' (hid' ▸ hB')
       exact ⟨h1, h2.trans hid', fun e he => h3 e (join_mono hj e he)⟩
 
+/-- a `Good U` log stays `Good U` through `joinAll` of an honest batch, whatever logs are rejected -/
+theorem joinAll_good {acl : Acl} {U : List Entry} (hU : HashDet U) (hM : ClockMono U) {L : Log}
+    {logs : List (OMap × OMap)} (hG : Good U L) (hB : BatchHonest U L.id logs) :
+    Good U (joinAll acl L logs) :=
+  (joinAll_good' (acl := acl) hU hM logs L hG hB).1
+
+theorem joinAll_id {acl : Acl} {U : List Entry} (hU : HashDet U) (hM : ClockMono U) {L : Log}
+    {logs : List (OMap × OMap)} (hG : Good U L) (hB : BatchHonest U L.id logs) :
+    (joinAll acl L logs).id = L.id :=
+  (joinAll_good' (acl := acl) hU hM logs L hG hB).2.1
+
+/-- `joinAll` never removes an entry (any batch, honest or not) -/
+theorem joinAll_mono (acl : Acl) : ∀ (logs : List (OMap × OMap)) (L : Log),
+    ∀ e ∈ L.entries, e ∈ (joinAll acl L logs).entries := by
+  intro logs
+  induction logs with
+  | nil => intro L e he; exact he
+  | cons p rest ih =>
+    intro L e he
+    obtain ⟨es, hs⟩ := p
+    rw [joinAll_cons]
+    cases hj : join acl.canAppend L es hs L.id with
+    | error _ => exact ih L e he
+    | ok L' => exact ih L' e (join_mono hj e he)
+
 theorem loadEnd_log (acl : Acl) (s : Store) (logs : List (OMap × OMap)) :
-    (s.loadEndPinned acl logs).1.log = (joinAllPinned acl s.log logs).1 ∧
-    (s.loadEndPinned acl logs).2 = (joinAllPinned acl s.log logs).2 := by
-  unfold Store.loadEndPinned
-  split <;> (rename_i h; rw [h]; exact ⟨rfl, rfl⟩)
+    (s.loadEnd acl logs).log = joinAll acl s.log logs := rfl
 
-theorem loadEnd_heads_ok (acl : Acl) (s : Store) (logs : List (OMap × OMap))
-    (hok : (s.loadEndPinned acl logs).2 = true) :
-    (s.loadEndPinned acl logs).1.localHeads = s.localHeads ∧
-    (s.loadEndPinned acl logs).1.remoteHeads =
-      some ((sortedHeads (s.loadEndPinned acl logs).1.log).map (·.hash)) := by
-  unfold Store.loadEndPinned at hok ⊢
-  split
-  · rename_i h; rw [h] at hok; cases hok
-  · exact ⟨rfl, rfl⟩
-
-theorem loadEnd_heads_abort (acl : Acl) (s : Store) (logs : List (OMap × OMap))
-    (hok : (s.loadEndPinned acl logs).2 = false) :
-    (s.loadEndPinned acl logs).1.localHeads = s.localHeads ∧
-    (s.loadEndPinned acl logs).1.remoteHeads = s.remoteHeads := by
-  unfold Store.loadEndPinned at hok ⊢
-  split
-  · exact ⟨rfl, rfl⟩
-  · rename_i h; rw [h] at hok; cases hok
+/-- the cache after `replicationLoadComplete`: `_localHeads` untouched, `_remoteHeads` rewritten
+with all the heads of the merged log — unconditionally -/
+theorem loadEnd_heads (acl : Acl) (s : Store) (logs : List (OMap × OMap)) :
+    (s.loadEnd acl logs).localHeads = s.localHeads ∧
+    (s.loadEnd acl logs).remoteHeads = some ((sortedHeads (s.loadEnd acl logs).log).map (·.hash)) :=
+  ⟨rfl, rfl⟩
 
 theorem loadEnd_good {acl : Acl} {U : List Entry} (hU : HashDet U) (hM : ClockMono U) {s : Store}
     {logs : List (OMap × OMap)} (hG : Good U s.log) (hB : BatchHonest U s.log.id logs) :
-    Good U (s.loadEndPinned acl logs).1.log ∧ (s.loadEndPinned acl logs).1.log.id = s.log.id := by
-  rw [(loadEnd_log acl s logs).1]
-  obtain ⟨h1, h2, _⟩ := joinAll_good (acl := acl) hU hM logs s.log hG hB
-  exact ⟨h1, h2⟩
+    Good U (s.loadEnd acl logs).log ∧ (s.loadEnd acl logs).log.id = s.log.id := by
+  rw [loadEnd_log]
+  exact ⟨joinAll_good hU hM hG hB, joinAll_id hU hM hG hB⟩
 
-/-- **A fully accepted `replicationLoadComplete` establishes `StoreCovers`**: the new
-`_remoteHeads` are all the heads of the merged log. (No assumption on the cache before.) -/
+/-- **Every `replicationLoadComplete` establishes `StoreCovers`**, also when some logs of the batch
+were rejected: the new `_remoteHeads` are all the heads of the merged log. (No assumption on the
+cache before, none on the outcome of the joins.) -/
 theorem loadEnd_covers {acl : Acl} {U : List Entry} (hU : HashDet U) (hM : ClockMono U) {s : Store}
-    {logs : List (OMap × OMap)} (hG : Good U s.log) (hB : BatchHonest U s.log.id logs)
-    (hok : (s.loadEndPinned acl logs).2 = true) : StoreCovers (s.loadEndPinned acl logs).1 := by
+    {logs : List (OMap × OMap)} (hG : Good U s.log) (hB : BatchHonest U s.log.id logs) :
+    StoreCovers (s.loadEnd acl logs) := by
   unfold StoreCovers Store.cachedHeads
-  rw [(loadEnd_heads_ok acl s logs hok).2]
+  rw [(loadEnd_heads acl s logs).2]
   simp only [Option.getD_some]
   exact (sortedHeads_cover hM (loadEnd_good hU hM hG hB).1.inv).mono_heads
     (fun x hx => List.mem_append_right _ hx)
